@@ -22,6 +22,9 @@ CHECKS = {
     "C12": {"suites": [VIEWS0, PRUNE], "assumptions": INT_ASSUME + ["float arms: not yet stated as theorems in this revision"]},
     "C13": {"suites": [VIEWS, VIEWS_EXH], "assumptions": INT_ASSUME, "exhaustive_in_thorough": True},
     "C14": {"suites": [ENGINE], "assumptions": INT_ASSUME},
+    "C15": {"suites": [{"name": "limits", "suite": "limits", "quick": ["--count", 120], "thorough": ["--count", 3000]},
+                       {"name": "limits-deep", "suite": "limits-deep", "quick": ["--count", 4], "thorough": ["--count", 40]}],
+            "assumptions": INT_ASSUME + ["wall-clock time is an abstract monotone oracle: hook H6 makes the k-th engine check find the limit exceeded; the memory estimate is the modelled function of stack depth and iteration count"]},
     "C11": {
         "suites": [
             {"name": "ss", "suite": "ss", "quick": ["--count", 600], "thorough": ["--count", 40000]},
